@@ -70,9 +70,12 @@ def showResult (r : Stepwise.Result) : String :=
 
 /-- `src`: the text as ONE unit (`Parser::parse` + `Executable::run`) -/
 def handleSrc (fuel hex : String) : String :=
-  match loadRaw hex with
-  | .error a => a
-  | .ok prog => showResult (Stepwise.runBatch (fuel.toNat?.getD 100000) prog)
+  -- BEGIN C01X2 (the answer is `Stepwise.runText`, rendered; same lines as `loadRaw` + `runBatch` gave)
+  match Stepwise.runText (fuel.toNat?.getD 100000) (bytesOfHex hex) with
+  | .rejected c => perrAnswer c
+  | .unsupported w => "model=unsupported out= vars= note=" ++ noBlank w
+  | .ran r => showResult r
+  -- END C01X2
 
 /-- `srcstep`: the text one statement at a time (`parseStatement` + run, repeated) -/
 def handleSrcStep (fuel hex : String) : String :=
